@@ -117,6 +117,10 @@ def run(prog, res):
             'lattice_lib._verify_dominances_hyperparameters'):
     validate.check_distinct_pairs(prog, res, prog.function(q))
   res.floor('V9', 2)
+  from ..rules import divisors
+  divisors.check(prog, res, [f for f in prog.all_functions()
+                             if f.parent is None])
+  res.floor('D3', 7)
   res.floor('N0', 250)
   res.floor('V1', 60)
   res.floor('V1s', 3)
